@@ -52,7 +52,7 @@ func (w *World) randOwner() *Account {
 	return w.Accts[names[w.Rnd.Intn(len(names))]]
 }
 
-var amountMenu = []int64{1, 999_999, 1_000_000, 1_000_001, 1_500_000, 2_000_000, 3_333_333, 7_000_000, 12_345_678}
+var amountMenu = []int64{1, 999_999, 1_000_000, 1_000_001, 1_500_000, 2_000_000, 3_333_333, 7_000_000, 12_345_678, 2_999_999, 4_000_000, 5_000_001}
 
 func (w *World) randAmount() int64 { return amountMenu[w.Rnd.Intn(len(amountMenu))] }
 
@@ -443,6 +443,21 @@ func opCommission(w *World) *Op {
 
 // ---- governance
 
+// withVotes appends, to a proposal submission, yes-votes of every validator operator on the id the proposal will get
+// (transactions of a block execute in order, so the votes land right after the submission).
+func (w *World) withVotes(op *Op) *Op {
+	next, err := w.P.PApp.GovKeeper.ProposalID.Peek(w.P.Ctx())
+	if err != nil {
+		return op
+	}
+	id := next + uint64(w.propsThisStep)
+	w.propsThisStep++
+	for _, v := range w.createdVals() {
+		op.Specs = append(op.Specs, TxSpec{Signer: v.Oper, Msgs: []sdk.Msg{MsgVoteYes(v.Oper, id)}, Tag: "vote"})
+	}
+	return op
+}
+
 // voteOps returns votes (by every validator operator) on proposals not yet voted on.
 func (w *World) voteOps() []TxSpec {
 	var specs []TxSpec
@@ -479,7 +494,7 @@ func opGovParams(w *World) *Op {
 	prop := GovProposal(w.Accts["faucet"], &providertypes.MsgUpdateParams{Authority: GovAddr(), Params: params})
 	op := one("gov-params", w.Accts["faucet"], prop)
 	op.Specs[0].Tag = "gov-params:" + what
-	return op
+	return w.withVotes(op)
 }
 
 func opGovStaking(w *World) *Op {
@@ -500,7 +515,7 @@ func opGovStaking(w *World) *Op {
 	prop := GovProposal(w.Accts["faucet"], &stakingtypes.MsgUpdateParams{Authority: GovAddr(), Params: params})
 	op := one("gov-staking", w.Accts["faucet"], prop)
 	op.Specs[0].Tag = "gov-staking:" + what
-	return op
+	return w.withVotes(op)
 }
 
 // opToGov transfers ownership of an opt-in consumer to the gov module (first step of becoming Top-N).
@@ -559,7 +574,7 @@ func opGovTopN(w *World) *Op {
 	w.Op("gov: consumer %s %s", ci.ID, what)
 	op := one("gov-topn", w.Accts["faucet"], GovProposal(w.Accts["faucet"], msg))
 	op.Specs[0].Tag = "gov-topn:" + what
-	return op
+	return w.withVotes(op)
 }
 
 // pickOp draws one operation from the profile's weighted menu.
